@@ -39,6 +39,7 @@ class World:
         self.connects = 0
         self.refuse = False
         self.log = []
+        self.partial_frames_delivered = 0
         self.drain_once = {"I": None, "A": None}     # one-shot exception for the next drain() of that side
         self.drain_call = {"I": None, "A": None}     # async callable(side) awaited inside every successful drain() of that side
         self.writer_hook = None          # callable(side, writer): lets a check add fault points to a new writer
@@ -133,11 +134,21 @@ class World:
             raise AssertionError(kind)
         await settle()
 
-    async def break_(self, kind_I="eof", kind_A="eof", drain_I=None, drain_A=None):
-        """drop everything in flight both ways; kinds: eof | reset | pipe | timeout | oserror | silent"""
+    async def break_(self, kind_I="eof", kind_A="eof", drain_I=None, drain_A=None, partial=None):
+        """drop everything in flight both ways; kinds: eof | reset | pipe | timeout | oserror | silent.
+        partial = (side, fraction): the connection is cut in the middle of the frame that was next in flight towards `side`:
+        its first part still arrives (TCP delivers what it has), then the break."""
         link = self.link
         if link is None or not link.up:
             return
+        if partial is not None:
+            side, frac = partial
+            nxt = link.q[side][0] if link.q[side] else None
+            if isinstance(nxt, (bytes, bytearray)) and len(nxt) > 2:
+                k = max(1, min(len(nxt) - 1, int(len(nxt) * frac)))
+                link.reader[side].feed(bytes(nxt[:k]))
+                self.partial_frames_delivered += 1
+                await settle()
         link.up = False
         link.q["I"].clear()
         link.q["A"].clear()
